@@ -94,8 +94,11 @@ type History struct {
 	FutureEpoch bool `json:"future_epoch,omitempty"`
 	// Start: genesis time (RFC 3339); empty = the harness default. Drawn near year ends and the leap day, where calendar
 	// arithmetic (coinomics' year length, epochs) is most sensitive
-	Start  string   `json:"start,omitempty"`
-	Blocks []HBlock `json:"blocks"`
+	Start string `json:"start,omitempty"`
+	// ModuleAccts: the genesis lists the module accounts with their permissions, like the export of a running network
+	// does (otherwise they are created on first use)
+	ModuleAccts bool     `json:"module_accts,omitempty"`
+	Blocks      []HBlock `json:"blocks"`
 }
 
 const hUsers = 5
@@ -104,13 +107,24 @@ var hKinds = []string{
 	"send", "send", "delegate", "delegate", "delegate", "undelegate", "undelegate", "redelegate", "withdraw", "setwithdraw",
 	"gov-submit", "gov-deposit", "gov-vote", "vest-create", "vest-create", "vest-clawback", "lv-liquidate", "lv-redeem",
 	"dao-fund", "dao-transfer", "eth-send", "eth-create", "eth-call", "eth-call", "eth-delegate", "eth-withdraw", "eth-prog",
-	"bad-nonce", "low-fee", "unjail", "send-module", "multisend-new", "delegate-all", "eth-fanout", "erc20-deploy", "erc20-mint", "erc20-transfer", "erc20-transfer", "erc20-convert",
+	"bad-nonce", "low-fee", "unjail", "send-module", "multisend-new", "delegate-all", "eth-fanout", "eth-approve-toucher", "eth-toucher", "erc20-deploy", "erc20-mint", "erc20-transfer", "erc20-transfer", "erc20-convert",
 }
 
 var hGovKinds = []string{"register-erc20", "register-erc20", "toggle-pair", "precompile-off", "precompile-swap", "erc20-switch", "register-coin", "upgrade-plan", "fork-schedule"}
 
 // hModuleTargets: module accounts a user might (try to) send coins to.
 var hModuleTargets = []string{"distribution", "bonded_tokens_pool", "not_bonded_tokens_pool", "fee_collector", "gov", "erc20", "coinomics"}
+
+// hModulePerms: the module accounts of the network and the permissions they were created with (what an exported
+// genesis of a running network contains)
+var hModulePerms = []struct {
+	Name  string
+	Perms []string
+}{
+	{"fee_collector", nil}, {"distribution", nil}, {"bonded_tokens_pool", []string{"burner", "staking"}}, {"not_bonded_tokens_pool", []string{"burner", "staking"}},
+	{"gov", []string{"burner"}}, {"transfer", []string{"minter", "burner"}}, {"evm", []string{"minter", "burner"}}, {"erc20", []string{"minter", "burner"}},
+	{"interchainaccounts", nil}, {"coinomics", []string{"minter"}}, {"vesting", nil}, {"liquidvesting", []string{"minter", "burner"}}, {"ucdao", nil},
+}
 
 // hStarts: genesis times; half of the histories start shortly before a year end (leap -> common, common -> leap) or the
 // leap day, so that the calendar date of a block differs between time zones
@@ -132,6 +146,7 @@ func genHistory(t *rapid.T, minBlocks, maxBlocks int, kinds []string) History {
 	h := History{NumVals: rapid.IntRange(2, 4).Draw(t, "nvals"), Coinomics: rapid.Bool().Draw(t, "coinomics"), NoBaseFee: rapid.IntRange(0, 3).Draw(t, "nobasefee") == 0,
 		LateForks: rapid.IntRange(0, 5).Draw(t, "lateforks") == 0, FutureEpoch: rapid.IntRange(0, 2).Draw(t, "futureepoch") == 0}
 	h.Start = rapid.SampledFrom(hStarts).Draw(t, "start")
+	h.ModuleAccts = rapid.Bool().Draw(t, "module-accts")
 	nb := rapid.IntRange(minBlocks, maxBlocks).Draw(t, "nblocks")
 	for i := 0; i < nb; i++ {
 		b := HBlock{Dt: rapid.SampledFrom(hDts).Draw(t, "dt"), Proposer: rapid.IntRange(0, 3).Draw(t, "proposer")}
@@ -231,6 +246,14 @@ func genHistory(t *rapid.T, minBlocks, maxBlocks int, kinds []string) History {
 			}
 		}
 	}
+	if has("eth-toucher") && nb >= 2 && rapid.IntRange(0, 3).Draw(t, "toucher-scenario") == 0 {
+		// a user delegates to validator 0, lets its agent contract undelegate, and calls it: the agent touches the pools with
+		// zero-value calls before the precompile moves coins into them
+		i := rapid.IntRange(0, nb-2).Draw(t, "tch-at")
+		a := rapid.IntRange(0, hUsers-1).Draw(t, "tch-a")
+		h.Blocks[i].Txs = append([]HTx{{K: "delegate-val0", A: a, Amt: "5000000"}, {K: "eth-approve-toucher", A: a, N: 0}}, h.Blocks[i].Txs...)
+		h.Blocks[i+1].Txs = append([]HTx{{K: "eth-toucher", A: a, N: 0}}, h.Blocks[i+1].Txs...)
+	}
 	if has("gov-vote") && nb >= 3 && rapid.IntRange(0, 2).Draw(t, "gov-exec-scenario") == 0 {
 		// a proposal with messages is submitted by a large delegator, voted through, and executed (or rolled back) when
 		// its voting period ends
@@ -299,6 +322,19 @@ func hOpts(h History) chain.Opts {
 		dg.Params.CommunityTax = sdk.NewDecWithPrec(2, 2)
 		gs[distrtypes.ModuleName] = cdc.MustMarshalJSON(dg)
 
+		if h.ModuleAccts {
+			var ag authtypes.GenesisState
+			cdc.MustUnmarshalJSON(gs[authtypes.ModuleName], &ag)
+			accs, err := authtypes.UnpackAccounts(ag.Accounts)
+			must(err)
+			for _, m := range hModulePerms {
+				accs = append(accs, authtypes.NewEmptyModuleAccount(m.Name, m.Perms...))
+			}
+			packed, err := authtypes.PackAccounts(accs)
+			must(err)
+			ag.Accounts = packed
+			gs[authtypes.ModuleName] = cdc.MustMarshalJSON(&ag)
+		}
 		if h.FutureEpoch {
 			var pg epochstypes.GenesisState
 			cdc.MustUnmarshalJSON(gs[epochstypes.ModuleName], &pg)
@@ -499,6 +535,8 @@ func (r *hRunner) buildTx(x HTx) []byte {
 		return cosmos(A, 200000+uint64(k)*100000, &banktypes.MsgMultiSend{Inputs: []banktypes.Input{banktypes.NewInput(A.Addr, total)}, Outputs: outs})
 	case "delegate":
 		return cosmos(A, 400000, stakingtypes.NewMsgDelegate(A.Addr, valAddr, coin))
+	case "delegate-val0":
+		return cosmos(A, 400000, stakingtypes.NewMsgDelegate(A.Addr, sdk.ValAddress(chain.ValOp(0).Addr), coin))
 	case "undelegate", "redelegate", "withdraw":
 		// resolve against A's existing delegations (fall back to the drawn validator, which then fails)
 		dels := app.StakingKeeper.GetDelegatorDelegations(ctx, A.Addr, 100)
@@ -750,6 +788,10 @@ func (r *hRunner) buildTx(x HTx) []byte {
 		return cosmos(signer, 300000, ucdaotypes.NewMsgTransferOwnership(signer.Addr, B.Addr))
 	case "eth-send":
 		to := B.Hex
+		if x.N >= 6 {
+			// value sent to a module account's address (pools, distribution, fee collector, ...)
+			to = common.BytesToAddress(authtypes.NewModuleAddress(hModuleTargets[(x.V+x.B)%len(hModuleTargets)]).Bytes())
+		}
 		return eth(&to, amt, nil, 21000)
 	case "eth-create":
 		if x.N%4 == 2 {
@@ -774,6 +816,12 @@ func (r *hRunner) buildTx(x HTx) []byte {
 	case "eth-withdraw":
 		to := pabi.DistributionAddr
 		return eth(&to, big.NewInt(0), pabi.Pack("distribution", "withdrawDelegatorRewards", A.Hex, val.OperatorAddress), 600000)
+	case "eth-approve-toucher":
+		to := pabi.StakingAddr
+		return eth(&to, big.NewInt(0), pabi.Pack("staking", "approve", hToucherAddr(x.A%hUsers), new(big.Int).Mul(oneISLM, big.NewInt(1000)), []string{"/cosmos.staking.v1beta1.MsgUndelegate"}), 600000)
+	case "eth-toucher":
+		to := hToucherAddr(x.A % hUsers)
+		return eth(&to, big.NewInt(0), nil, 1500000)
 	case "eth-prog":
 		// pre-installed four-frame program (see hProg): entry 0 calls a frame that succeeds, entry 2 one that reverts
 		to := evmasm.FrameAddr(0)
@@ -832,6 +880,24 @@ func (r *hRunner) buildTx(x HTx) []byte {
 
 // hProg is installed at height 1 on every node that runs a history: frames 0/2 store, call frame 1/3 with 1 wei,
 // forward 2 wei to a user and log; frame 1 stores and forwards; frame 3 does the same and then reverts.
+// hToucher: user u's agent contract. It makes zero-value calls to the staking pools, the distribution account and the
+// fee collector (a "touch"), then undelegates 1 ISLM of the user's stake with validator 0 through the staking precompile
+// (the user must have approved it) and finally withdraws the user's rewards there through the distribution precompile.
+func hToucherAddr(u int) common.Address { return evmasm.FrameAddr(20 + u) }
+
+func hToucher(u int) []byte {
+	user := hUsersAccts()[u]
+	val0 := sdk.ValAddress(chain.ValOp(0).Addr).String()
+	var ops []evmasm.Op
+	for _, m := range []string{"not_bonded_tokens_pool", "bonded_tokens_pool", "distribution", "fee_collector"} {
+		ops = append(ops, evmasm.Op{Kind: "send", Target: common.BytesToAddress(authtypes.NewModuleAddress(m).Bytes()).Hex(), Value: "0", NoRecord: true})
+	}
+	ops = append(ops,
+		evmasm.Op{Kind: "pre", CallOp: "CALL", Target: pabi.StakingAddr.Hex(), Value: "0", Data: fmt.Sprintf("%x", pabi.Pack("staking", "undelegate", user.Hex, val0, oneISLM))},
+		evmasm.Op{Kind: "pre", CallOp: "CALL", Target: pabi.DistributionAddr.Hex(), Value: "0", Data: fmt.Sprintf("%x", pabi.Pack("distribution", "withdrawDelegatorRewards", user.Hex, val0))})
+	return evmasm.Program{Frames: []evmasm.Frame{{Ops: ops}}}.Compile()[0]
+}
+
 func hProg() evmasm.Program {
 	recv := chain.Acct("hu1").Hex.Hex()
 	entry := func(child int) evmasm.Frame {
@@ -1003,6 +1069,9 @@ func (r *hRunner) RunBlock(b HBlock, feed *BlockFeed) (BlockTrace, BlockFeed) {
 			n.InstallCode(evmasm.FrameAddr(i), code)
 		}
 		n.InstallCode(hFanoutAddr, fanoutRuntime())
+		for u := 0; u < hUsers; u++ {
+			n.InstallCode(hToucherAddr(u), hToucher(u))
+		}
 	}
 	for _, e := range bb.Events {
 		if e.Type == "slash" {
